@@ -28,7 +28,7 @@ REQUIRED = ["re_evaluated_after_in_place_edit", "empty_descriptions_planted", "t
             "abstract_at_threshold", "keywords_at_threshold"]
 EXHAUSTIVE = {"quick": False, "thorough": False}
 
-WORD = ["soil", "carbon", "flux", "lake", "data", "annual", "survey", "of", "the", "northern", "plots", "2019", "été", "N₂O"]
+WORD = ["Darwin´s", "na¨ive", "25˚C", "km²", "ﬁeld", "soil", "carbon", "flux", "lake", "data", "annual", "survey", "of", "the", "northern", "plots", "2019", "été", "N₂O"]
 
 
 def plan(tier, seed):
